@@ -427,3 +427,55 @@ register_opcode_patch(BytesContainment())
 
 # ---------------------------------------------------------------- E7: no short-circuiting
 _core.ShortCircuitingContext.make_interceptor = lambda self, original: original
+
+# ---------------------------------------------------------------- B7: to_bytes(from_bytes(bs)) == bs
+# z3 answers `unknown` when asked to invert the 8-byte polynomial of int.from_bytes through the
+# div/mod terms of CrossHair's to_bytes model.  The identity
+#     int.from_bytes(bs, order, signed=s).to_bytes(len(bs), order, signed=s) == bs
+# lets to_bytes return the original byte terms when (and only when) it is applied to the very
+# term from_bytes produced, with the same length, byte order and signedness.  Anything else
+# (other width, other signedness, arithmetic on the value) takes CrossHair's generic model.
+import crosshair.libimpl.builtinslib as _bl
+
+
+class _FromBytesMap(dict):
+    def __init__(self, solver):
+        super().__init__()
+
+
+_orig_from_bytes = _PATCH_REGISTRATIONS[int.from_bytes]
+
+
+def _from_bytes(b, byteorder="big", *, signed=False):
+    val = _orig_from_bytes(b, byteorder, signed=signed)
+    with NoTracing():
+        if isinstance(val, SymbolicInt) and type(byteorder) is str and type(signed) is bool:
+            try:
+                items = list(b.inner) if isinstance(b, SymbolicBytes) else list(b)
+            except Exception:
+                items = None
+            if items is not None and 4 < len(items) <= 16:
+                m = context_statespace().extra(_FromBytesMap)
+                m[val.var.get_id()] = (val.var, items, byteorder, signed)
+    return val
+
+
+_PATCH_REGISTRATIONS[int.from_bytes] = _from_bytes
+
+_orig_to_bytes = SymbolicInt.to_bytes
+
+
+def _to_bytes(self, length=1, byteorder="big", *, signed=False):
+    with NoTracing():
+        hit = None
+        if type(length) is int and type(byteorder) is str and type(signed) is bool:
+            rec = context_statespace().extra(_FromBytesMap).get(self.var.get_id())
+            if rec is not None and rec[0].eq(self.var) and len(rec[1]) == length and rec[2] == byteorder and rec[3] == signed:
+                hit = rec[1]
+        if hit is not None:
+            HIT.add("B7")
+            return SymbolicBytes(list(hit))
+    return _orig_to_bytes(self, length, byteorder, signed=signed)
+
+
+SymbolicInt.to_bytes = _to_bytes
